@@ -30,7 +30,7 @@ import c09
 
 META = {
     'text': 'Theorems (Lean 4; the models carry the code variant of each former defect site, the harness determines on every run which variant the tree under test is — evidence field code_variant; since commits 04684b2 / 9eabe46 both sites are REPAIRED and the claimed theorems are the FULL statements query_frame and blowout_refines_fresh): (a) over explicit-store models of the three aliasing sites the property names — the interaction matrix handed to dbm_p.coefs by reference, the depth array of ambient.get_values, the FluidParticle.K warm-start cache — frame theorems (caller-visible arrays unchanged) where true (calc_delta <= 0; get_values as repaired), REFUTATION where false for the code as written (calc_delta > 0 overwrites FluidMixture.delta; exact description of what is overwritten), and repeat-call equality of every query after ANY history of queries (by induction over the history; for mixed-phase particles under the stated flash-stability hypothesis, refuted without it); (b) over a model of blowout.Blowout as parameters + flags (update, new_oil, constructor-only q_type), for every sequence of update calls over all 13 update methods: the refreshed object equals the object constructed with the final parameters provided the sequence does not change whether num_oil_elements is positive; the unrestricted statement is REFUTED (witness update_num_oil_elements(0)). Real code: seeded random histories of 1-12 queries on one mixture / particle / profile object with deep snapshots of every argument array and of the attribute dict around every call and repeated queries; random sequences of 1-8 Blowout update calls compared attribute by attribute with a fresh Blowout; the models are tied to the code by replaying the recorded library calls / flags.',
-    'note': 'Trusted: Lean kernel + 3 standard axioms; hand transcriptions Model/Blowout.lean, Model/Particle09.lean (validated every run by correspondence); the snapshot / comparison code of the harness. NOT modelled: the equations of state and everything Blowout._update derives (library parameters). Purity of the queries that are not among the three named aliasing sites is SAMPLED by the snapshot histories only. Scope: generated masses are non-negative (the deliberate in-place clipping m[m<0]=0 of SingleParticle.properties is outside the quantifier); FluidParticle.K is a cache, not a physical parameter.',
+    'note': 'Trusted: Lean kernel + 3 standard axioms; hand transcriptions Model/Blowout.lean, Model/Particle09.lean (validated every run by correspondence); the snapshot / comparison code of the harness. NOT modelled: the equations of state and everything Blowout._update derives (library parameters). Purity of the queries that are not among the three named aliasing sites is SAMPLED by the snapshot histories only. Upstream the warm-start cache is DEAD code (the guard of dbm.equil_MM, isinstance(np.sum(K_0), type(np.nan)) is always true, so the cached FluidParticle.K is stored but never used as an initial guess): on the tree as it stands the hypothesis FlashStable of answer_indep_of_cache / answer_indep_of_history holds exactly and the theorem is exercised only through its hypothesis; that the hypothesis holds (answers independent of the query history, in particular across compositions with different zero-mass patterns) is what the cache histories SAMPLE by comparing every answer with a freshly constructed particle. Scope: generated masses are non-negative (the deliberate in-place clipping m[m<0]=0 of SingleParticle.properties is outside the quantifier); FluidParticle.K is a cache, not a physical parameter.',
     'technique': 'Lean 4 proof over hand-written explicit-store / flag-machine models (induction over call histories) + snapshot histories and fresh-object comparison on the real code + oracle-table correspondence',
 }
 GEN = []
@@ -38,7 +38,9 @@ MODULES = ['TamocV.Props.C19', 'TamocV.Model.Blowout', 'TamocV.Model.Particle09'
 RULE = ('histories of 1-12 queries on ONE object: FluidMixture of 1-5 database compounds (binary interaction zero / constant / '
         'group-contribution) queried with density, fugacity, viscosity, interface_tension, equilibrium, solubility, diffusivity, '
         'masses, moles, mol_frac, mass_frac, partial_pressures, biodegradation_rate over 1-4 interleaved (composition, T, P, S) '
-        'states; FluidParticle fp_type 0/1/2 (incl. zero-mass components) and InsolubleParticle queried with every C09 method and '
+        'states; cache histories: 7-12 queries (density, fugacity, solubility, viscosity, interface_tension, return_all) on ONE fp_type=2 particle of 4-6 '
+        'gas+liquid compounds at pre-screened fast two-phase states, interleaving the full composition with 2-3 different zero-mass patterns, every '
+        'answer compared with a freshly constructed particle; FluidParticle fp_type 0/1/2 (incl. zero-mass components) and InsolubleParticle queried with every C09 method and '
         'return_all over 1-3 interleaved states; ambient.Profile (synthetic CTD, optional dissolved-gas columns) queried with '
         'get_values (scalar / list / ndarray depths inside, above and below the profile; list or str names incl. unknown names), '
         'get_units, buoyancy_frequency; every (method, state) pair is re-asked later in the history with probability 1/2; '
@@ -125,6 +127,28 @@ def _arr_eq(x, y):
     return bool(np.array_equal(x, y))
 
 
+def raise_site(e):
+    """<ExcType>@<innermost tamoc file>:<function> of an exception raised by the code under test"""
+    import traceback
+    fr = [f for f in traceback.extract_tb(e.__traceback__) if '/tamoc/' in f.filename]
+    if fr:
+        return '%s@%s:%s' % (type(e).__name__, fr[-1].filename.split('/')[-1], fr[-1].name)
+    return '%s@harness' % type(e).__name__
+
+
+def note_raise(ctx, kind, method, rk, first, descr, args, e, hist):
+    """a query raised inside a history.  If the SAME (method, state) pair answered earlier in this history the raise is a
+    history leak -> keyed violation; otherwise it is counted and bounded by the ceiling obligation of run()."""
+    ctx.raised_calls += 1
+    ctx.count('raised:%s.%s' % (kind, method))
+    ctx.notes_raise.setdefault('%s.%s' % (kind, method), (descr, args, '%s: %s' % (type(e).__name__, str(e)[:120])))
+    if rk in first:
+        ctx.violation('repeat-raised:%s.%s:%s' % (kind, method, raise_site(e)),
+                      'a query that answered earlier in the history raises when asked again on the same object',
+                      dict(object=descr, history=[h[:2] for h in hist], method=method, first_asked_at=first[rk][0],
+                           exception='%s: %s' % (type(e).__name__, str(e)[:200])))
+
+
 def attrs(obj, skip=()):
     return {k: snap(v) for k, v in obj.__dict__.items() if k not in skip}
 
@@ -186,10 +210,10 @@ def run_history(ctx, obj, kind, descr, steps, call, cache_attrs=(), tol_of=None,
                 res = call(obj, method, args)
             out = c09.flat(res if not isinstance(res, dict) else sorted(res.items()))
         except Exception as e:
-            ctx.count('raised:%s.%s' % (kind, method))
             hist.append((method, sid, 'raised %s' % type(e).__name__))
-            ctx.notes_raise.setdefault('%s.%s' % (kind, method), (descr, [describe(a) for a in a0], '%s: %s' % (type(e).__name__, str(e)[:120])))
+            note_raise(ctx, kind, method, (method, sid), first, descr, [describe(a) for a in a0], e, hist)
             continue
+        ctx.total_calls += 1
         a1 = [snap(a) for a in args]
         o1 = attrs(obj, skip=cache_attrs)
         ctx.evaluations += 1
@@ -227,6 +251,7 @@ def mixture_histories(ctx, r, n):
 
     def call(obj, method, args):
         return getattr(obj, method)(*args)
+    ctx.planned['mixture-equilibrium'] = n
     for _ in range(n):
         fm, d = mixgen.mixture(r, nmin=1, nmax=5, peneloux=False)
         nc = len(d['composition'])
@@ -256,6 +281,7 @@ def mixture_histories(ctx, r, n):
                 states[sid]['slow'] = (time.time() - t0) > 0.06
             if method == 'equilibrium' and states[sid]['slow']:
                 ctx.count('mixture equilibrium query skipped (flash slower than 60 ms)')
+                ctx.skips['mixture-equilibrium'] = ctx.skips.get('mixture-equilibrium', 0) + 1
                 pairs = [pq for pq in pairs if pq != (method, sid)]
                 continue
             steps.append((method, sid, (lambda method=method, sid=sid: mix_args(method, states[sid]))))
@@ -274,6 +300,7 @@ def mixture_histories(ctx, r, n):
 # ---------------------------------------------------------------------------
 
 def particle_histories(ctx, r, n, lines, owners):
+    ctx.planned['particle'] = n
     with c09.LibRecorder() as rec:
         for hidx in range(n):
             kind = r.choice(['fluid', 'fluid', 'fluid', 'inert'])
@@ -302,6 +329,7 @@ def particle_histories(ctx, r, n, lines, owners):
                 states.append(x)
             if skip_obj:
                 ctx.count('mixed-phase object skipped (flash slower than 60 ms)')
+                ctx.skips['particle'] = ctx.skips.get('particle', 0) + 1
                 continue
             if kind == 'fluid':
                 obj.K = None
@@ -333,9 +361,9 @@ def particle_histories(ctx, r, n, lines, owners):
                     out = c09.norm_out(kind, method, o)
                 except Exception as e:
                     rec.stop()
-                    ctx.count('raised:%s.%s' % (kind, method))
-                    ctx.notes_raise.setdefault('%s.%s' % (kind, method), (descr, x, '%s: %s' % (type(e).__name__, str(e)[:120])))
+                    note_raise(ctx, 'particle', method, (method, sid), first, descr, x, e, hist)
                     continue
+                ctx.total_calls += 1
                 table = rec.stop()
                 K1 = None if kind != 'fluid' or obj.K is None else np.array(obj.K, dtype=float, copy=True)
                 a1 = snap(marr)
@@ -375,6 +403,151 @@ def particle_histories(ctx, r, n, lines, owners):
             ctx.nontrivial.add(('particle', kind, descr.get('fp_type'), tuple(hist)))
             if len(ctx.samples) < 4:
                 ctx.sample({'object': descr, 'history': hist})
+
+
+# ---------------------------------------------------------------------------
+# (a2') cache histories: ONE mixed-phase particle, interleaved zero patterns, every answer vs a FRESH particle
+# ---------------------------------------------------------------------------
+
+CACHE_GAS = ['methane', 'ethane', 'propane', 'carbon_dioxide', 'nitrogen', 'n-butane']
+CACHE_LIQ = ['n-hexane', 'toluene', 'benzene', 'n-heptane', 'n-decane', 'ethylbenzene', 'n-pentane']
+CACHE_METHODS = ['density', 'fugacity', 'solubility', 'viscosity', 'interface_tension', 'return_all']
+
+
+def cache_histories(ctx, r, n):
+    """histories on ONE fp_type=2 particle of >= 4 compounds that interleave full compositions with compositions
+    having zero-mass components (different zero patterns) at two-phase states; EVERY answer is compared with the answer
+    of a freshly constructed particle (flash tolerance).  A warm start from the cached partition coefficients that
+    carries information from one composition to the next (e.g. K = 0 of a missing component pinning it out of the gas
+    phase later) shows up here."""
+    from tamoc import dbm
+    stats = dict(after_other_pattern=0, two_phase=0)
+
+    def fresh(comp):
+        with S.quiet():
+            return dbm.FluidParticle(list(comp), fp_type=2)
+
+    def flash_kind(p, m, T, P):
+        """'mix' | 'gas' | 'liq' | None (slow / raised) of a cold flash, time-limited"""
+        t0 = time.time()
+        try:
+            with S.quiet(), c09.time_limit(1.0):
+                mi, _xi, _K = p.equilibrium(np.array(m, dtype=float), T, P)
+        except Exception:
+            return None
+        if time.time() - t0 > 0.06:
+            return None
+        g, l = float(np.sum(mi[0, :])), float(np.sum(mi[1, :]))
+        return 'liq' if g == 0. else ('gas' if l == 0. else 'mix')
+
+    ctx.planned['cache-history'] = 10 * n          # about 10 queries per history
+    done = 0
+    attempts = 0
+    while done < n and attempts < 6 * n:
+        attempts += 1
+        nc = r.randint(4, 6)
+        ng = r.randint(2, nc - 2)
+        comp = r.sample(CACHE_GAS, ng) + r.sample(CACHE_LIQ, nc - ng)
+        r.shuffle(comp)
+        obj = fresh(comp)
+        full = np.array([r.uniform(0.1, 1.) for _ in range(nc)]) * 1e-6
+        # two-phase states for the full composition, fast flashes only
+        states = []
+        for _k in range(12):
+            T, P = r.uniform(275., 305.), math.exp(r.uniform(math.log(3e5), math.log(8e6)))
+            if flash_kind(obj, full, T, P) == 'mix':
+                states.append((T, P, r.choice([0., 35., r.uniform(0., 36.)]), r.uniform(273.15, 300.)))
+            if len(states) == 2:
+                break
+        if not states:
+            ctx.count('cache history: composition without a fast two-phase state (redrawn)')
+            continue
+        # compositions: the full one + 2-3 different zero patterns (fast flashes at every state)
+        comps = [('full', full)]
+        seen = set()
+        for _k in range(8):
+            zero = tuple(sorted(r.sample(range(nc), r.randint(1, nc - 2))))
+            if zero in seen:
+                continue
+            mz = np.array([r.uniform(0.1, 1.) for _ in range(nc)]) * 1e-6 if r.random() < 0.5 else full.copy()
+            mz[list(zero)] = 0.
+            if all(flash_kind(obj, mz, T, P) is not None for T, P, _s, _ta in states):
+                seen.add(zero)
+                comps.append((zero, mz))
+            if len(comps) == 4:
+                break
+        if len(comps) < 3:
+            ctx.count('cache history: zero patterns with slow flashes (redrawn)')
+            continue
+        obj.K = None
+        descr = dict(kind='cache-history', composition=comp, fp_type=2,
+                     compositions=[(list(z) if z != 'full' else 'full', [float(v) for v in m]) for z, m in comps],
+                     states=[list(s) for s in states])
+        hist = []
+        prev = None
+        for j in range(r.randint(7, 12)):
+            # mostly switch to a composition with a different zero pattern than the previous call
+            cands = [k for k in range(len(comps)) if k != prev] if (prev is not None and r.random() < 0.85) else list(range(len(comps)))
+            ci = r.choice(cands)
+            if j == 1 and prev != 0:
+                ci = 0                  # a full composition right after a composition with missing components
+            zpat, m = comps[ci]
+            T, P, Sa, Ta = r.choice(states)
+            method = r.choice(CACHE_METHODS)
+            x = dict(m=np.array(m, dtype=float), T=T, P=P, Sa=Sa, Ta=Ta, status=-1)
+            xf = dict(x, m=np.array(m, dtype=float))
+            fr = fresh(comp)
+            fk = flash_kind(fr, m, T, P)
+            # the fresh particle first: if IT cannot answer, the query is no valid reference (bounded skip)
+            try:
+                with S.quiet(), c09.time_limit(5.0):
+                    fr.K = None
+                    ref = c09.flat(tuple(c09.norm_out('fluid', method, c09.call_fluid(fr, method, xf))))
+            except Exception as e:
+                ctx.count('cache history query skipped: the fresh particle raised or timed out (%s)' % method)
+                ctx.skips['cache-history'] = ctx.skips.get('cache-history', 0) + 1
+                continue
+            try:
+                with S.quiet(), c09.time_limit(5.0):
+                    got = c09.flat(tuple(c09.norm_out('fluid', method, c09.call_fluid(obj, method, x))))
+            except Exception as e:
+                ctx.violation('cache-leak-raised:particle.%s:%s' % (method, raise_site(e)),
+                              'a mixed-phase FluidParticle query that a freshly constructed particle answers (within 5 s) raises or does not '
+                              'return on an object that has answered other queries before',
+                              dict(object=descr, history=list(hist), method=method, masses=[float(v) for v in m], T=T, P=P, Sa=Sa, Ta=Ta,
+                                   exception='%s: %s' % (type(e).__name__, str(e)[:200]), answer_on_fresh_object=ref))
+                obj.K = None
+                prev = None
+                continue
+            ctx.evaluations += 1
+            hist.append((method, 'full' if zpat == 'full' else list(zpat), round(T, 3), round(P, 1)))
+            if prev is not None and prev != ci:
+                stats['after_other_pattern'] += 1
+                ctx.count('mixed-phase query after a query with a different zero pattern on the same object')
+                if fk == 'mix':
+                    stats['two_phase'] += 1
+                    ctx.count('... of which two-phase at the call state')
+            if not close(got, ref, TOL['flash_fugacity']):
+                worst = max([relerr(a, b) for a, b in zip(got, ref) if math.isfinite(a) and math.isfinite(b)] + [0.])
+                ctx.violation('cache-leak:particle.%s' % method,
+                              'the answer of a mixed-phase FluidParticle query depends on the queries made before on the same object '
+                              '(warm start from the cached partition coefficients FluidParticle.K): it differs from the answer of a freshly '
+                              'constructed particle beyond the flash tolerance',
+                              dict(object=descr, history=list(hist), failing_call=len(hist) - 1, method=method,
+                                   masses=[float(v) for v in m], T=T, P=P, Sa=Sa, Ta=Ta, flash_at_call_state=fk,
+                                   answer_on_history_object=got, answer_on_fresh_object=ref, worst_relative_difference=worst,
+                                   tolerance=TOL['flash_fugacity']))
+            prev = ci
+        done += 1
+        ctx.count('cache history (one fp_type=2 particle, interleaved zero patterns)')
+        ctx.nontrivial.add(('cache-history', tuple(comp), tuple((h[0], tuple(h[1]) if h[1] != 'full' else 'full') for h in hist)))
+        if len([s for s in ctx.samples if s.get('object', {}).get('kind') == 'cache-history']) < 1:
+            ctx.sample({'object': descr, 'history': hist})
+    ctx.oblige('cache histories: at least 20 mixed-phase queries follow a query with a different zero pattern on the same '
+               'object (%d), at least 10 of them two-phase at the call state (%d); every answer compared with a fresh particle'
+               % (stats['after_other_pattern'], stats['two_phase']),
+               stats['after_other_pattern'] >= 20 and stats['two_phase'] >= 10,
+               'generator floor not reached: %r' % (stats,))
 
 
 # ---------------------------------------------------------------------------
@@ -606,6 +779,7 @@ def blowout_sequences(ctx, r, n, lines, owners):
         calls.append((substance, float(q_oil), float(gor), fp_type))
         return orig_get_oil(substance, q_oil, gor, ca, fp_type)
     blowout.dbm_utilities.get_oil = get_oil
+    ctx.planned['blowout'] = n
     try:
         for seq in range(n):
             init = dict(z0=r.uniform(200., 1400.), d0=r.uniform(0.05, 0.4), substance=r.randrange(len(SUBSTANCES)),
@@ -660,11 +834,37 @@ def blowout_sequences(ctx, r, n, lines, owners):
                         float('nan') if b.u0 is None else float(b.u0), float(b.phi_0), float(b.theta_0), int(b.num_gas_elements),
                         int(b.num_oil_elements), wat[0] if wat else -1, cur[0] if cur else -1, int(bool(b.track))]
             descr = dict(initial=dict(init), ops=[(o, (v if not isinstance(v, np.ndarray) else v.tolist())) for o, v in ops])
+            final = dict(init)
+            for op, v in ops:
+                final[OP_ATTR[op]] = v
+            # ---- the FRESH object first: if the final (or the initial) parameters are no valid scenario the sequence is
+            #      skipped (counted, bounded by the ceiling obligation of run())
             try:
                 del calls[:]
+                track = final.pop('track')
+                fresh = build(dict(final, track=True))
+                if track is not True:
+                    fresh.update_track_particles(track)     # `track` is not a constructor argument
+                    with S.quiet():
+                        fresh._update()
+                fpf = blowout_fingerprint(fresh)
+                fresh_call = calls[-1]
+                final['track'] = track
+                del calls[:]
                 b = build(init)
+            except Exception as e:
+                zero_bins = init['num_oil_elements'] == 0 or final['num_oil_elements'] == 0
+                why = ('gas flow-rate convention without gas at standard conditions' if zero_bins and isinstance(e, ZeroDivisionError)
+                       else raise_site(e))
+                ctx.count('blowout sequence skipped: initial or final parameters are no valid scenario (%s)' % why)
+                ctx.skips['blowout'] = ctx.skips.get('blowout', 0) + 1
+                if not (zero_bins and isinstance(e, ZeroDivisionError)):
+                    ctx.notes_raise.setdefault('Blowout', (descr, None, '%s: %s' % (type(e).__name__, str(e)[:160])))
+                continue
+            # ---- the history object: the fresh object exists, so a raise here means the history is NOT "identical to one
+            #      constructed directly with the final parameters"
+            try:
                 trace = [[int(b.update), int(b.new_oil), int(b.q_type)] + ident(b)]
-                final = dict(init)
                 for op, v in ops:
                     val = v
                     if op == 'substance':
@@ -674,7 +874,6 @@ def blowout_sequences(ctx, r, n, lines, owners):
                     elif op == 'current_data':
                         val = currents[v]
                     getattr(b, 'update_' + op)(val)
-                    final[OP_ATTR[op]] = v
                     trace.append([int(b.update), int(b.new_oil), int(b.q_type)] + ident(b))
                 ncalls0 = len(calls)
                 new_oil_before = bool(b.new_oil)
@@ -685,23 +884,15 @@ def blowout_sequences(ctx, r, n, lines, owners):
                 refreshed_calls = calls[ncalls0:]
                 last_call = calls[-1]
                 fpr = blowout_fingerprint(b)
-                del calls[:]
-                track = final.pop('track')
-                fresh = build(dict(final, track=True))
-                if track is not True:
-                    fresh.update_track_particles(track)     # `track` is not a constructor argument
-                    with S.quiet():
-                        fresh._update()
-                fpf = blowout_fingerprint(fresh)
-                fresh_call = calls[-1]
             except Exception as e:
-                zero_bins = init['num_oil_elements'] == 0 or any(v == 0 for o, v in ops if o == 'num_oil_elements')
-                if zero_bins and isinstance(e, ZeroDivisionError):
-                    # gas-flow-rate convention (no oil bins) for a fluid without gas at standard conditions: not a valid scenario
-                    ctx.count('blowout sequence skipped: gas flow-rate convention without gas at standard conditions')
-                else:
-                    ctx.count('raised:Blowout')
-                    ctx.notes_raise.setdefault('Blowout', (descr, None, '%s: %s' % (type(e).__name__, str(e)[:160])))
+                ctx.evaluations += 1
+                ctx.violation('blowout-history-raised:' + raise_site(e),
+                              'a Blowout reached by update calls raises when it is refreshed (or updated) although a Blowout constructed '
+                              'directly with the final parameters builds: the history is not identical to the fresh object',
+                              dict(descr, exception='%s: %s' % (type(e).__name__, str(e)[:200]),
+                                   flags_before_refresh=dict(update=bool(getattr(b, 'update', None)), new_oil=bool(getattr(b, 'new_oil', None)),
+                                                             q_type=getattr(b, 'q_type', None)),
+                                   fresh_q_type=int(fresh.q_type)))
                 continue
             ctx.evaluations += 1
             zero0 = init['num_oil_elements'] > 0
@@ -784,6 +975,8 @@ def compare_blowout(own, resp):
 def run(ctx, lean_ok):
     r = ctx.rng
     ctx.notes_raise = {}
+    ctx.skips, ctx.planned = {}, {}
+    ctx.raised_calls, ctx.total_calls = 0, 0
     detect_variants(ctx)
     ctx.code_variant = dict(VARIANT, **c09.CODE)
     ctx.oblige('the tree under test has the REPAIRED dbm_p.coefs (works on a copy): the full-strength frame theorem '
@@ -795,9 +988,18 @@ def run(ctx, lean_ok):
     lines, owners = [], []
     mixture_histories(ctx, r, ctx.n(60, 1500))
     particle_histories(ctx, r, ctx.n(45, 800), lines, owners)
+    cache_histories(ctx, r, ctx.n(10, 150))
     profile_histories(ctx, r, ctx.n(40, 800), lines, owners)
     coefs_cases(ctx, r, ctx.n(40, 600), lines, owners)
     blowout_sequences(ctx, r, ctx.n(16 + 14, 16 + 300), lines, owners)
+    # ---- ceilings: what the generators skip or what raises is bounded, never an open-ended counter
+    for k, frac in (('blowout', 0.2), ('particle', 0.35), ('mixture-equilibrium', 0.35), ('cache-history', 0.1)):
+        nsk, npl = ctx.skips.get(k, 0), max(ctx.planned.get(k, 0), 1)
+        ctx.oblige('skipped %s cases: %d of %d planned (ceiling %d %%)' % (k, nsk, npl, int(frac * 100)), nsk <= frac * npl,
+                   'too many generated cases were skipped: the sample no longer covers the quantifier')
+    ctx.oblige('queries that raised inside a history: %d of %d calls (ceiling 2 %%; a raise of a query that answered earlier in the '
+               'same history is a violation in any case)' % (ctx.raised_calls, ctx.total_calls + ctx.raised_calls),
+               ctx.raised_calls <= 0.02 * max(ctx.total_calls + ctx.raised_calls, 1), str(list(ctx.notes_raise.items())[:2])[:600])
     for k, (d, x, text) in sorted(ctx.notes_raise.items()):
         ctx.notes.append('C20 finding candidate key=raises:%s first: %s on %r inputs %r' % (k, text, d, x))
 
